@@ -183,13 +183,13 @@ func runBoth(sc *scenario, known map[int]exm) (payload string, base, out []obsEn
 	case "proto":
 		payload = sc.protoText
 		bp, err := textparse.New(sc.protoPayload, "application/vnd.google.protobuf", st, textparse.ParserOptions{
-			KeepClassicOnClassicAndNativeHistograms: sc.Keep})
+			KeepClassicOnClassicAndNativeHistograms: sc.Keep, IgnoreNativeHistograms: sc.Ignore})
 		if err != nil || bp == nil {
 			panic(fmt.Sprint("textparse.New: ", err))
 		}
 		base, beof, berr = record(bp, true, known)
 		wp, err := textparse.New(sc.protoPayload, "application/vnd.google.protobuf", labels.NewSymbolTable(), textparse.ParserOptions{
-			ConvertClassicHistogramsToNHCB: true, KeepClassicOnClassicAndNativeHistograms: sc.Keep})
+			ConvertClassicHistogramsToNHCB: true, KeepClassicOnClassicAndNativeHistograms: sc.Keep, IgnoreNativeHistograms: sc.Ignore})
 		if err != nil || wp == nil {
 			panic(fmt.Sprint("textparse.New: ", err))
 		}
@@ -329,6 +329,9 @@ func main() {
 		meta.Hit("format-" + sc.Format)
 		meta.Hit("shape-" + sc.Shape)
 		meta.Hit(fmt.Sprintf("keep-%v", sc.Keep))
+		if sc.Format == "proto" {
+			meta.Hit(fmt.Sprintf("proto-ignore-native-%v-keep-%v", sc.Ignore, sc.Keep))
+		}
 		switch {
 		case nh == 0:
 			meta.Hit("nhcb-0")
@@ -362,10 +365,10 @@ func main() {
 		}
 		sc, known := build(r, kind)
 		emit(sc, known, "")
-		if i%5 == 4 {
+		if i%3 == 2 {
 			// protobuf stream: the protobuf parser's own conversion path
 			rp := gen.Fork(f.Seed^0x5bd1e995, i)
-			psc := &scenario{Format: "proto", Keep: rp.Bool(), Shape: "clean-proto", FailAt: -1, classes: map[string]bool{}}
+			psc := &scenario{Format: "proto", Keep: rp.Bool(), Ignore: rp.Chance(3, 5), Shape: "clean-proto", FailAt: -1, classes: map[string]bool{}}
 			var pk map[int]exm
 			psc.protoPayload, psc.protoText, pk = buildProto(rp, psc)
 			emit(psc, pk, "")
